@@ -863,5 +863,14 @@ fn validate_endpoint(endpoint: &str) -> Result<()> {
         }
     }
 
+    // The endpoint becomes part of the cache key (a relative file path below the
+    // cache directory) and of the request URL: a `..` segment would address
+    // something outside the `api/ribbit/` namespace or the cache directory itself
+    if endpoint.split('/').any(|segment| segment == "..") {
+        return Err(ProtocolError::InvalidEndpoint(
+            "Endpoint must not contain '..' path segments".to_string(),
+        ));
+    }
+
     Ok(())
 }
